@@ -666,3 +666,21 @@ V("from_points stacks the points as rows", "C08", TRANS, "        m1 = np.column
 V("from_points without the scale of the sources", "C08", TRANS, "        t1 = m1.dot(np.diag(d1))\n", "        t1 = m1\n", "E18.frame", "Transformation.from_points")
 V("from_points_and_conics pairs the third points the wrong way round", "C08", TRANS, "        return cls.from_points((a1, a2), (b1, b2), (c1, c2), (d1, d2))", "        return cls.from_points((a1, a2), (b1, b2), (c2, c1), (d1, d2))",
   "E18.pairs", "Transformation.from_points_and_conics")
+
+
+# ------------------------------------------------------------------------------------------------ parametrised quadrics as polynomial tables (E19)
+V("Sphere: radius term with the wrong sign", "C13", CURVE, "        m[-1, -1] = c[:-1].dot(c[:-1]) - radius**2", "        m[-1, -1] = c[:-1].dot(c[:-1]) + radius**2", "E19", "Sphere.__init__", quick=True)
+V("Sphere: centre taken from the raw homogeneous coordinates", "C13", CURVE, "        c = -center.normalized_array\n        m = np.eye(center.shape[0]", "        c = -center.array\n        m = np.eye(center.shape[0]",
+  "E19", "Sphere.__init__")
+V("Sphere: constant term from all homogeneous coordinates", "C13", CURVE, "        m[-1, -1] = c[:-1].dot(c[:-1]) - radius**2", "        m[-1, -1] = c.dot(c) - radius**2", "E19", "Sphere.__init__")
+V("twin: Sphere filled block by block", "C13", CURVE, "        m[-1, :] = c\n        m[:, -1] = c\n        m[-1, -1] = c[:-1].dot(c[:-1]) - radius**2",
+  "        m[-1, :-1] = c[:-1]\n        m[:-1, -1] = c[:-1]\n        p = c[:-1]\n        m[-1, -1] = p.dot(p) - radius * radius", "silent")
+V("Ellipse: horizontal and vertical radius exchanged", "C13", CURVE, "        r = np.array([vradius**2, hradius**2, 1])", "        r = np.array([hradius**2, vradius**2, 1])", "E19", "Ellipse.__init__")
+V("Ellipse: radii not squared", "C13", CURVE, "        r = np.array([vradius**2, hradius**2, 1])", "        r = np.array([vradius, hradius, 1])", "E19", "Ellipse.__init__")
+V("Ellipse: constant term without the correction for the homogeneous coordinate", "C13", CURVE, "        m[2, 2] = d.dot(c) - (r[0] * r[1] + 1)", "        m[2, 2] = d.dot(c) - r[0] * r[1]", "E19", "Ellipse.__init__")
+V("twin: Ellipse without the determinant normalisation", "C13", CURVE, "        m = m / (np.prod(np.maximum(r[:2], 1))) ** (2 / 3)\n", "", "silent")
+V("Circle: passes the diameter as the vertical radius", "C13", CURVE, "        super().__init__(center, radius, radius, **kwargs)", "        super().__init__(center, radius, 2 * radius, **kwargs)", "E19", "Circle.__init__")
+V("Cone: opening term with the wrong sign", "C13", CURVE, "            m[2:, 2:] *= -c", "            m[2:, 2:] *= c", "E19", "Cone.__init__")
+V("Cone: constant term linear in the height of the vertex", "C13", CURVE, "v[2] ** 2 * c)", "v[2] * c)", "E19", "Cone.__init__")
+V("Cone: the cylinder keeps the vertex at infinity as its centre", "C13", CURVE, "            v = base_center.normalized_array\n", "            v = vertex.normalized_array\n", "E19", "Cone.__init__")
+V("twin: Cone with the opening applied entry by entry", "C13", CURVE, "            m[2:, 2:] *= -c", "            m[2, 2] *= -c\n            m[2, 3] *= -c\n            m[3, 2] *= -c", "silent")
